@@ -4,7 +4,7 @@ cd /verif
 for d in harmless/*.diff; do
   b=$(basename $d .diff); prop=${b%%-*}
   props=$prop
-  case $b in C02-r1) props="C02 C11";; C02-r3) props="C15";; C16-r3) props="C15";; C10-r2) props="C10 C01";; C01-*) props="C01 C04";; esac
+  case $b in C02-r1) props="C02 C11";; C02-r3) props="C15";; C16-r3) props="C15";; C16-r4) props="C16 C05";; C10-r2) props="C10 C01";; C01-*) props="C01 C04";; esac
   out=$(tools/rf_eval.sh /verif/$d $props 2>&1)
   nv=$(echo "$out" | grep -c "^VIOLATION"); nu=$(echo "$out" | grep -c "^UNDECIDED"); ne=$(echo "$out" | grep -c "CHECKER-ERROR")
   echo "$b props=[$props] violations=$nv undecided=$nu errors=$ne"
